@@ -51,6 +51,7 @@ func MayBeNilErr(v ssa.Value, prev, b *ssa.BasicBlock, okVal func(ssa.Value) boo
 			return false
 		}
 		seen[v] = true
+		v = ResolveSpill(v)
 		if okVal != nil && okVal(v) {
 			return false
 		}
@@ -141,6 +142,7 @@ func BoolTarget(fn *ssa.Function, idx int, want bool, okVal func(ssa.Value) bool
 		if depth > 8 {
 			return true
 		}
+		v = ResolveSpill(v)
 		if okVal != nil && okVal(v) {
 			return false
 		}
@@ -320,4 +322,31 @@ func IsLenOf(v ssa.Value, pred func(ssa.Value) bool) bool {
 		return false
 	}
 	return pred(c.Call.Args[0])
+}
+
+// ResolveSpill undoes go/ssa's result spilling in functions with defers: `*r = v; rundefers;
+// t = *r; return t` - a load of a local cell is replaced by the value stored into that cell
+// earlier in the same block.
+func ResolveSpill(v ssa.Value) ssa.Value {
+	u, ok := v.(*ssa.UnOp)
+	if !ok || u.Op != token.MUL {
+		return v
+	}
+	a, ok := u.X.(*ssa.Alloc)
+	if !ok {
+		return v
+	}
+	var last ssa.Value
+	for _, in := range u.Block().Instrs {
+		if in == ssa.Instruction(u) {
+			break
+		}
+		if st, ok := in.(*ssa.Store); ok && st.Addr == ssa.Value(a) {
+			last = st.Val
+		}
+	}
+	if last != nil {
+		return last
+	}
+	return v
 }
